@@ -163,6 +163,8 @@ def run_branch(logic: Logic, body, m, outvar, invars, tvars, arr='self.c', junk=
             it.run(logic.func(short), [store[a] for a in args])
             written.add(args[0])
             continue
+        if isinstance(st, ast.Pass):
+            continue     # an arm that does nothing: the output keeps its previous content (the table comparison reports it)
         raise ModelError(f'{m}-valued branch: unrecognised statement {norm(st)[:80]}')
     res = planes_to_values(store[outvar].p, sp.nrows)
     info['steps'] = it.steps
